@@ -369,7 +369,8 @@ def coverage(ck, events, summary):
     ck.require(per["cert"]["frobcert"] == 7, "expected 7 Frobenius-basis certificates, got %d" % per["cert"]["frobcert"])
     ck.require(classes[("f62", "lazy")] > 50, "f62 lazy representations [M,2M) not exercised")
     ck.require(classes[("f62", "zeroM")] > 0, "f62 zero-as-M representation not exercised")
-    ck.require(classes[("dir", "f64-double-band")] > 0 and classes[("dir", "f64-mul_small-band")] > 0 and classes[("dir", "f62-zero-as-M")] > 0,
+    ck.require(classes[("dir", "f64-double-band")] > 0 and classes[("dir", "f64-mul_small-band")] > 0 and classes[("dir", "f62-zero-as-M")] > 0
+               and classes[("dir", "f62-inv-path")] >= 60,
                "directed representation-class scenarios missing")
     ck.require(all(classes[("lifted-op", o)] > 0 for o in ("add", "sub", "mul", "double", "square", "neg", "mul_small")),
                "lifted cases of the scaled model did not reach the recorder")
